@@ -4,15 +4,27 @@ from checks.e2e_common import run_e2e_property
 
 EXPLANATION = (
     "K3/K7 for bundles. P tier: CSE key lemma (shared with C10) so that bundle deciders with different output modes are "
-    "never merged. B tier (bounded): bundle programs (literals, nested/merged, each-arithmetic with constant / member / "
+    "never merged; the IR builder's bundle constructors, the placer (each node one placement of its own carrying its operator, operands, output and separation flag) "
+    "and the declaration lowering (a named bundle's producer is kept) are under contract. B tier (bounded): bundle programs (literals, nested/merged, each-arithmetic with constant / member / "
     "foreign scalar operands, filters copy/constant, gating, any/all, selection, zero members) are compiled by the real "
     "pipeline; EVERY signal on each result's anchor network is compared with the S3 bundle semantics by SMT for all "
     "int32 member values, so a leaked scalar or condition signal is visible."
 )
 
 
+def _merge_box(cr):
+    from bounded import pipeline
+    from bounded.contract_enum import run_contract_enum
+    from contracts import c07b
+    pipeline.ensure_repo()
+    args = c07b.wire_merge_arg_sets()
+    cr.bounded_check(run_contract_enum, "place-wire-merge-box", c07b.place_wire_merge, args,
+                     f"{len(args)} merges of 2..3 sources x (signal / bundle reference, node resolved to another entity or not, materialised or not) x earlier memberships: "
+                     "junction = sources in order, membership keyed by the PHYSICAL producer (contract evaluated on the real EntityPlacer._place_wire_merge)")
+
+
 def run(tier):
     progs = gen.c02_scope(tier)
     return run_e2e_property("C02", tier, EXPLANATION, "DESIGN §4 C02",
                             [("e2e-bundles", progs, "bundle operations over 3-member bundles incl. zero/negative members")],
-                            contract_modules=["contracts.c10", "contracts.c20b", "contracts.c07", "contracts.c07b", "contracts.c02", "contracts.c16b", "contracts.c14b"])
+                            contract_modules=["contracts.c10", "contracts.c20b", "contracts.c07", "contracts.c07b", "contracts.c02", "contracts.c16b", "contracts.c14b"], extra=_merge_box)
